@@ -35,7 +35,19 @@ type (
 	safeStrerT struct{ s string } // SafeValue + Stringer
 	c05pair    struct{ A, B interface{} }
 	c05safeKey string
+	// leaves whose own methods make them fit a slot of an interface type WITH methods
+	intStrerT     int                  // unsafe, Stringer, integer kind (every verb applies)
+	regIntStrerT  int                  // registrable, Stringer, integer kind
+	safeIntStrerT int                  // SafeValue, Stringer, integer kind
+	safeErrT      struct{ msg string } // SafeValue, error
 )
+
+func (i intStrerT) String() string     { return fmt.Sprintf("%dt", int(i)) }
+func (i regIntStrerT) String() string  { return fmt.Sprintf("%dr", int(i)) }
+func (i safeIntStrerT) String() string { return fmt.Sprintf("%ds", int(i)) }
+func (safeIntStrerT) SafeValue()       {}
+func (safeErrT) SafeValue()            {}
+func (e safeErrT) Error() string       { return "E<" + e.msg + ">" }
 
 func (r regStrerT) String() string  { return "R<" + r.s + ">" }
 func (safeFloatT) SafeValue()       {}
@@ -44,13 +56,15 @@ func (safeStrerT) SafeValue()       {}
 func (s safeStrerT) String() string { return "SS<" + s.s + ">" }
 func (c05safeKey) SafeValue()       {}
 
-var c05RegTypes = []reflect.Type{reflect.TypeOf(regIntT(0)), reflect.TypeOf(regStrT2("")), reflect.TypeOf(regStrerT{})}
+var c05RegTypes = [][]reflect.Type{{reflect.TypeOf(regIntT(0))}, {reflect.TypeOf(regStrT2(""))}, {reflect.TypeOf(regStrerT{}), reflect.TypeOf(regIntStrerT(0))}}
 
 func c05SetConfig(cfg int) {
 	rfmt.VerifResetSafeTypes()
-	for i, t := range c05RegTypes {
+	for i, ts := range c05RegTypes {
 		if cfg&(1<<i) != 0 {
-			redact.RegisterSafeType(t)
+			for _, t := range ts {
+				redact.RegisterSafeType(t)
+			}
 		}
 	}
 }
@@ -63,6 +77,12 @@ func (m mark) Format(s fmt.State, verb rune) {
 	fmt.Fprintf(s, fmt.FormatString(s, verb), m.x)
 	s.Write([]byte{2})
 }
+
+// These let a mark sit in a slot of type fmt.Stringer / error / SafeValue on the fmt side; fmt never calls
+// them (Formatter comes first).
+func (m mark) String() string { return "" }
+func (m mark) Error() string  { return "" }
+func (m mark) SafeValue()     {}
 
 // sfLeaf: a SafeFormatter emitting a safe and an unsafe part (fmt sees its Format method).
 type sfLeaf struct{ pub, sec string }
@@ -125,6 +145,12 @@ func c05MakeLeaves() []c05Leaf {
 	add(c05Leaf{Name: "registrable int", Redact: regIntT(5), Fmt: regIntT(5), RegIdx: 0})
 	add(c05Leaf{Name: "registrable string", Redact: regStrT2("rg"), Fmt: regStrT2("rg"), RegIdx: 1})
 	add(c05Leaf{Name: "registrable Stringer", Redact: regStrerT{"rs"}, Fmt: regStrerT{"rs"}, RegIdx: 2, Stringer: true})
+	add(c05Leaf{Name: "unsafe int Stringer", Redact: intStrerT(7), Fmt: intStrerT(7), RegIdx: -1})
+	add(c05Leaf{Name: "Safe(int Stringer)", Redact: redact.Safe(intStrerT(7)), Fmt: intStrerT(7), Safe: true, RegIdx: -1})
+	add(c05Leaf{Name: "registrable int Stringer", Redact: regIntStrerT(255), Fmt: regIntStrerT(255), RegIdx: 2})
+	add(c05Leaf{Name: "SafeValue int Stringer", Redact: safeIntStrerT(9), Fmt: safeIntStrerT(9), Safe: true, RegIdx: -1})
+	add(c05Leaf{Name: "unsafe error", Redact: errT{"ue"}, Fmt: errT{"ue"}, RegIdx: -1, Stringer: true})
+	add(c05Leaf{Name: "SafeValue error", Redact: safeErrT{"se"}, Fmt: safeErrT{"se"}, Safe: true, RegIdx: -1, Stringer: true})
 	add(c05Leaf{Name: "Unsafe(registrable int)", Redact: redact.Unsafe(regIntT(5)), Fmt: regIntT(5), RegIdx: -1})
 	add(c05Leaf{Name: "SafeFormatter", Redact: sfLeaf{"pub", "sec"}, Fmt: sfLeaf{"pub", "sec"}, Safe: true, RegIdx: -1})
 	add(c05Leaf{Name: "nil", Redact: nil, Fmt: nil, Safe: true, RegIdx: -1})
@@ -171,6 +197,108 @@ var c05Shapes = []struct {
 
 const c05FirstSafeShape = 8
 
+// Typed shapes (Shape >= 100): the slot that holds the leaf has a static type other than interface{} — an
+// interface WITH methods (fmt.Stringer, error, SafeValue) or the leaf's own concrete type. The classification of a
+// leaf must not depend on the static type of the slot it sits in. Shape = 100 + 10*container + slot type.
+var (
+	c05SlotNames = []string{"fmt.Stringer", "error", "redact.SafeValue", "concrete"}
+	c05SlotTypes = []reflect.Type{
+		reflect.TypeOf((*fmt.Stringer)(nil)).Elem(),
+		reflect.TypeOf((*error)(nil)).Elem(),
+		reflect.TypeOf((*redact.SafeValue)(nil)).Elem(),
+		nil,
+	}
+	c05ContNames = []string{"[]T{a,b}", "[2]T{a,b}", "map[safe key]T{a,b}", "map[T]safe{a:}", "struct{A,B T}", "&struct{A,B T}", "[]interface{}{[]T{a},b}"}
+)
+
+func c05TypedShapes() []int {
+	var r []int
+	for ct := range c05ContNames {
+		for sl := range c05SlotNames {
+			r = append(r, 100+10*ct+sl)
+		}
+	}
+	return r
+}
+
+func c05ShapeName(sh int) string {
+	if sh < 100 {
+		return c05Shapes[sh].Name
+	}
+	return strings.Replace(c05ContNames[(sh-100)/10], "T", c05SlotNames[(sh-100)%10], -1)
+}
+
+// c05Typed builds the container for one side; ok=false when the leaves do not fit the slot type.
+func c05Typed(sh int, a, b interface{}) (res interface{}, ok bool) {
+	ct, sl := (sh-100)/10, (sh-100)%10
+	T := c05SlotTypes[sl]
+	if T == nil {
+		if a == nil || b == nil || reflect.TypeOf(a) != reflect.TypeOf(b) {
+			return nil, false
+		}
+		T = reflect.TypeOf(a)
+		if !T.Comparable() && ct == 3 {
+			return nil, false
+		}
+		if T.Kind() == reflect.Uint8 {
+			return nil, false // a byte slice/array is one leaf, not a container (C02/C04 cover it)
+		}
+	}
+	val := func(x interface{}) (reflect.Value, bool) {
+		if x == nil {
+			return reflect.Zero(T), T.Kind() == reflect.Interface
+		}
+		v := reflect.ValueOf(x)
+		if !v.Type().AssignableTo(T) {
+			return v, false
+		}
+		return v, true
+	}
+	av, ok1 := val(a)
+	bv, ok2 := val(b)
+	if !ok1 || !ok2 {
+		return nil, false
+	}
+	defer func() {
+		if recover() != nil {
+			res, ok = nil, false
+		}
+	}()
+	switch ct {
+	case 0:
+		s := reflect.MakeSlice(reflect.SliceOf(T), 2, 2)
+		s.Index(0).Set(av)
+		s.Index(1).Set(bv)
+		return s.Interface(), true
+	case 1:
+		s := reflect.New(reflect.ArrayOf(2, T)).Elem()
+		s.Index(0).Set(av)
+		s.Index(1).Set(bv)
+		return s.Interface(), true
+	case 2:
+		m := reflect.MakeMap(reflect.MapOf(reflect.TypeOf(c05safeKey("")), T))
+		m.SetMapIndex(reflect.ValueOf(c05safeKey("k1")), av)
+		m.SetMapIndex(reflect.ValueOf(c05safeKey("k2")), bv)
+		return m.Interface(), true
+	case 3:
+		m := reflect.MakeMap(reflect.MapOf(T, reflect.TypeOf(c05safeKey(""))))
+		m.SetMapIndex(av, reflect.ValueOf(c05safeKey("v")))
+		return m.Interface(), true
+	case 4, 5:
+		st := reflect.New(reflect.StructOf([]reflect.StructField{{Name: "A", Type: T}, {Name: "B", Type: T}}))
+		st.Elem().Field(0).Set(av)
+		st.Elem().Field(1).Set(bv)
+		if ct == 5 {
+			return st.Interface(), true
+		}
+		return st.Elem().Interface(), true
+	default:
+		s := reflect.MakeSlice(reflect.SliceOf(T), 1, 1)
+		s.Index(0).Set(av)
+		return []interface{}{s.Interface(), b}, true
+	}
+}
+
 type c05Case struct {
 	Config int       `json:"registry_config"`
 	Shape  int       `json:"shape"`
@@ -212,7 +340,12 @@ func stringerVerb(d Directive) bool {
 func c05Eval(cs c05Case, seen func(string)) (string, string) {
 	leaves := c05Leaves()
 	la, lb := &leaves[cs.LA], &leaves[cs.LB]
-	sh := c05Shapes[cs.Shape]
+	sh := c05Shapes[0]
+	if cs.Shape < 100 {
+		sh = c05Shapes[cs.Shape]
+	} else {
+		sh.Name = c05ShapeName(cs.Shape)
+	}
 	ds := []Directive{cs.D}
 	if sh.Two {
 		ds = append(ds, cs.D2)
@@ -228,9 +361,22 @@ func c05Eval(cs c05Case, seen func(string)) (string, string) {
 	var format string
 	var rargs, fargs []interface{}
 	f1, s1 := cs.D.Format()
-	ra := sh.Mk(la.Redact, lb.Redact)
-	fa := sh.Mk(la.fmtOperand(cs.Config), lb.fmtOperand(cs.Config))
-	if cs.Shape >= c05FirstSafeShape {
+	var ra, fa []interface{}
+	if cs.Shape >= 100 {
+		if (cs.Shape-100)%10 == 3 && cs.D.Verb == 'v' && cs.D.Flags&4 != 0 {
+			return "", "" // %#v prints the concrete slot type's name, which differs on the fmt side
+		}
+		r, ok1 := c05Typed(cs.Shape, la.Redact, lb.Redact)
+		f, ok2 := c05Typed(cs.Shape, la.fmtOperand(cs.Config), lb.fmtOperand(cs.Config))
+		if !ok1 || !ok2 {
+			return "", ""
+		}
+		ra, fa = []interface{}{r}, []interface{}{f}
+	} else {
+		ra = sh.Mk(la.Redact, lb.Redact)
+		fa = sh.Mk(la.fmtOperand(cs.Config), lb.fmtOperand(cs.Config))
+	}
+	if cs.Shape >= c05FirstSafeShape && cs.Shape < 100 {
 		// fmt sees the bare container (Safe() prints like its operand under fmt, C14) with bare leaves;
 		// a leaf that is itself Unsafe(...) is skipped: inside Safe() the outermost wrapper decides (C06)
 		// (a leaf that is itself Unsafe(...) is public too: inside a value declared safe as a whole the outermost declaration decides)
@@ -306,6 +452,21 @@ func checkC05(c *Ctx) {
 	for _, cfg := range configs {
 		cfg := cfg
 		c05SetConfig(cfg)
+		// (shape, second leaf) combinations whose leaves fit the slot type on both sides
+		typedFit := make([][][2]int, nl)
+		nFit := 0
+		for a := 0; a < nl; a++ {
+			for b := 0; b < nl; b++ {
+				for _, sh := range c05TypedShapes() {
+					_, ok1 := c05Typed(sh, leaves[a].Redact, leaves[b].Redact)
+					_, ok2 := c05Typed(sh, leaves[a].fmtOperand(cfg), leaves[b].fmtOperand(cfg))
+					if ok1 && ok2 {
+						typedFit[a] = append(typedFit[a], [2]int{sh, b})
+						nFit++
+					}
+				}
+			}
+		}
 		// one operand, full quick directive space
 		c.Section(fmt.Sprintf("C05/cells/cfg%03b/single", cfg), map[string]interface{}{"leaves": nl, "directives": dsOne.Size(), "registry_config": cfg}, dsOne.Size(), func(i int, w *Worker) {
 			d := dsOne.Get(i)
@@ -318,7 +479,7 @@ func checkC05(c *Ctx) {
 			}
 		})
 		// containers: all ordered pairs of leaves
-		c.Section(fmt.Sprintf("C05/cells/cfg%03b/shapes", cfg), map[string]interface{}{"leaves": nl, "second_leaves": len(second), "shapes": len(c05Shapes) - 2, "directives": dsPair.Size(), "registry_config": cfg}, dsPair.Size()*nl, func(i int, w *Worker) {
+		c.Section(fmt.Sprintf("C05/cells/cfg%03b/shapes", cfg), map[string]interface{}{"leaves": nl, "second_leaves": len(second), "shapes": len(c05Shapes) - 2, "typed_slot_cases": nFit, "directives": dsPair.Size(), "registry_config": cfg}, dsPair.Size()*nl, func(i int, w *Worker) {
 			d := dsPair.Get(i / nl)
 			a := i % nl
 			for _, b := range second {
@@ -328,6 +489,14 @@ func checkC05(c *Ctx) {
 					if cl, dt := c05Eval(cs, w.SeenS); dt != "" {
 						w.Fail(cl, cs, dt)
 					}
+				}
+			}
+			// slots of an interface type with methods / of the leaf's concrete type: all leaves as second
+			for _, t := range typedFit[a] {
+				cs := c05Case{Config: cfg, Shape: t[0], LA: a, LB: t[1], D: d}
+				w.Eval()
+				if cl, dt := c05Eval(cs, w.SeenS); dt != "" {
+					w.Fail(cl, cs, dt)
 				}
 			}
 			if i%3001 == 0 {
